@@ -18,6 +18,10 @@ Decided:
               IngestionDelta::is_empty, whose body reads it). A gate that looks only at inserted frames/embeddings
               skips the rebuild for a commit that only deletes: the vector index on disk keeps the deleted frame and
               serves it after reopen (the vector read paths rely on the index holding active frames only).
+  GUARD-C08f  frame_by_uri prefers the live version: the first lookup over toc.frames (in dominance order) selects with a
+              predicate that reads Frame.status; the status-blind lookup may only be a fallback behind it. A single
+              status-blind scan returns a Deleted/Superseded frame whenever the newest carrier of a URI is inactive
+              while an older carrier is still active.
 Not decided: what the searches return (values)."""
 from . import lib
 from .facts import Place, op_place, rv_places
@@ -94,7 +98,41 @@ def _rebuild_gate(ctx, F):
     ctx.floor('GUARD-C08e', n, 2, 'rebuild_indexes calls that follow apply_records')
 
 
+def _uri_lookup(ctx, F):
+    ctx.rule('GUARD-C08f', 'frame_by_uri: the first lookup over toc.frames filters on Frame.status (Active first, status-blind only as fallback)')
+    fn = ctx.need('GUARD-C08f', 'Memvid::frame_by_uri')
+    if fn is None:
+        return
+    ctx.touch(fn, len(fn.blocks))
+    looks = []
+    for c in fn.calls():
+        if c.name in ('find', 'rfind', 'position', 'rposition', 'filter', 'find_map') and len(c.args) > 1:
+            if lib.slice_back(fn, c.args[:1], through_calls=True, at=(c.bb, None)).has_field('Toc', 'frames'):
+                looks.append(c)
+    if not looks:
+        ctx.lost('GUARD-C08f', 'frame_by_uri: no iterator lookup over toc.frames found')
+        return
+    first = [c for c in looks if all(c is o or fn.dominates(c.bb, o.bb) or not fn.dominates(o.bb, c.bb) for o in looks)]
+    first = sorted(first, key=lambda c: c.bb)[0]
+    reads_status = False
+    for cp in lib.slice_back(fn, first.args[1:2], through_calls=False, at=(first.bb, None)).closures:
+        cl = F.fns.get(cp)
+        for body in ([cl] + F.closures_of(cl)) if cl is not None else []:
+            for bb, i, st in body.stmts():
+                for o in lib.rv_operands(st['rv']):
+                    q = op_place(o)
+                    if q is not None and ('Frame', 'status') in q.field_owners():
+                        reads_status = True
+    ctx.evaluations += len(looks)
+    if reads_status:
+        ctx.ok('GUARD-C08f', fn, 'the first lookup by URI selects on Frame.status; the status-blind lookup is a fallback', line=first.line)
+    else:
+        ctx.bad('GUARD-C08f', fn, 'the lookup by URI does not look at Frame.status first: when the newest frame carrying the URI is deleted or superseded and an older one is still active, '
+                'the inactive frame is returned', line=first.line, sink='Frame.status', detail='uri-lookup-status-blind')
+
+
 def run(ctx):
+    _uri_lookup(ctx, ctx.facts())
     _rebuild_gate(ctx, ctx.facts())
     ctx.rule('AGREE-C08a', 'mark_frame_deleted/superseded store a non-Active status and reach remove_frame_from_indexes; successor recorded')
     ctx.rule('MPT-C08a2', 'apply_records: supersedes=Some => mark_frame_superseded before the push; Tombstone => mark_frame_deleted before the next record')
